@@ -820,10 +820,6 @@ def run_select(case, ctx, tmp):
     ctx.sample("select", {"samples": names, "pedigree": ped, "records": 2})
 
 
-def _ident_kind(x):
-    return "none" if x is None else ("index" if isinstance(x, int) else "name")
-
-
 def run_record1(case, ctx, tmp):
     fname, fmt, idp, ad, dp = FORMS[case["form"]]
     gt = case["gt"]
